@@ -254,6 +254,7 @@ type bEnv struct {
 	// fault injection: fail the n-th call (1-based, counted over fetch/versions/source/finder calls); 0 = never
 	failAt   int
 	calls    int
+	failedKeys map[string]bool
 	analysed map[string]int
 	finders  []*scriptFinder
 	yield    bool
@@ -279,10 +280,22 @@ func (e *bEnv) ev(s string) {
 	e.mu.Unlock()
 }
 
-func (e *bEnv) tick(what string) bool {
+// tick counts a callback; key identifies what is asked. An injected fault is persistent for its
+// key (asking the failed thing again fails again), like a world in which that answer is an error.
+func (e *bEnv) tick(what string, key ...string) bool {
 	e.mu.Lock()
 	e.calls++
 	fail := e.failAt != 0 && e.calls == e.failAt
+	k := what + "|" + strings.Join(key, "|")
+	if e.failedKeys == nil {
+		e.failedKeys = map[string]bool{}
+	}
+	if fail && what != "finder" {
+		e.failedKeys[k] = true
+	}
+	if e.failedKeys[k] {
+		fail = true
+	}
 	e.mu.Unlock()
 	if e.boundary != nil {
 		e.boundary(what)
@@ -300,7 +313,7 @@ func (e *bEnv) FetchSourcePackage(ctx context.Context, sourceType string, u *url
 		addr = sourceType + "::" + addr
 	}
 	e.ev("fc:" + X(addr))
-	if e.tick("fetch") {
+	if e.tick("fetch", addr) {
 		return resp, fmt.Errorf("injected fetch fault")
 	}
 	for _, p := range e.w.Pkgs {
@@ -341,7 +354,7 @@ func writeContent(w *BWorld, content, dir string) error {
 func (e *bEnv) ModulePackageVersions(ctx context.Context, pkgAddr regaddr.ModulePackage) (sourcebundle.ModulePackageVersionsResponse, error) {
 	var resp sourcebundle.ModulePackageVersionsResponse
 	e.ev("vc:" + X(pkgAddr.String()))
-	if e.tick("versions") {
+	if e.tick("versions", pkgAddr.String()) {
 		return resp, fmt.Errorf("injected registry fault")
 	}
 	for _, r := range e.w.Regs {
@@ -365,7 +378,7 @@ func (e *bEnv) ModulePackageVersions(ctx context.Context, pkgAddr regaddr.Module
 func (e *bEnv) ModulePackageSourceAddr(ctx context.Context, pkgAddr regaddr.ModulePackage, version versions.Version) (sourcebundle.ModulePackageSourceAddrResponse, error) {
 	var resp sourcebundle.ModulePackageSourceAddrResponse
 	e.ev("sc:" + X(pkgAddr.String()) + ":" + X(version.String()))
-	if e.tick("source") {
+	if e.tick("source", pkgAddr.String(), version.String()) {
 		return resp, fmt.Errorf("injected registry fault")
 	}
 	for _, s := range e.w.Srcs {
